@@ -54,6 +54,11 @@ template<typename T> static tainted<T*, SbxA> mkp(const std::string& s)
   if (s != "null") p.assign_raw_pointer(g_sb, reinterpret_cast<T*>(g_sb.get_sandbox_impl()->Base + (uintptr_t)parse_dec(s)));
   return p;
 }
+// class types related by inheritance with non-zero base offsets: a reinterpret_cast never adjusts the address (a static_cast
+// or a C-style cast between these would)
+struct CBaseA { long a; };
+struct CBaseB { long b; };
+struct CDerived : CBaseA, CBaseB { long c; };
 // the source pointer either as a tainted (application memory) or stored in a sandbox cell (tainted_volatile)
 template<typename Src, typename Dst> static std::string rcast(bool vol, const std::string& off)
 {
@@ -114,6 +119,10 @@ int main()
         if (k == "st>char") return rcast<vst12*, char*>(vol, t[4]);
         if (k == "int>void") return rcast<int*, void*>(vol, t[4]);
         if (k == "pp>char") return rcast<int**, char*>(vol, t[4]);
+        if (k == "baseb>derived") return rcast<CBaseB*, CDerived*>(vol, t[4]);
+        if (k == "derived>baseb") return rcast<CDerived*, CBaseB*>(vol, t[4]);
+        if (k == "derived>basea") return rcast<CDerived*, CBaseA*>(vol, t[4]);
+        if (k == "basea>baseb") return rcast<CBaseA*, CBaseB*>(vol, t[4]);
         return "badop";
       }
       if (t[0] == "ccast" && t.size() == 3) {
